@@ -2,11 +2,12 @@ import Driver.C1516Common
 /-!
 Driver for C15 (versions in hundredths, e.g. 136).  Commands (→ answers):
   versions                         → 136,137,…
-  types <ver> <e|c>                → ids=<ints>
+  types <ver> <e|c>                → ids=<ints, ascending>
   members <e|c>                    → ids=<ints>             (enum member values)
   create <ver> <e|c> <type>        → ok | err <kind>       (`_add_effect(type)` with no arguments)
   gated <ver>                      → Class.attr=<S|U|X> …  (every link with a Support; X = class not reached in <ver>)
   link <ver> <Class> <attr>        → reach=<0|1> kind=<plain|object|history> gated=<0|1> supports=<0|1> exists=<0|1>
+  attrr <ver> <Class> <attr> <fresh|pulled>   → read=… push=… reread=…   (links that are reconstruction properties: no setter)
   attr <ver> <Class> <attr> <fresh|pulled>
         → read=<value|none|unsupported> wnone=<ok|unsupported> wval=<ok|unsupported> push=<written|skipped|error> reread=<value|unsupported>
   witness <ver>                    → links=<Class.attr,…> effects=<ids> conditions=<ids>   (offending entries of the obligation)
@@ -23,7 +24,7 @@ def step (_ : Unit) (line : String) : Unit × String :=
   | ["versions"] => ((), ",".intercalate (Versions.all.map (fun vt => toString vt.version)))
   | ["types", v, k] =>
     match (version? v).bind (fun vt => tableOf vt k) with
-    | some (t, _) => ((), "ids=" ++ showIntList t.ids)
+    | some (t, _) => ((), "ids=" ++ showIntList (t.ids.toArray.qsort (· < ·)).toList)
     | none => ((), "bad-op")
   | ["members", k] =>
     if k == "e" then ((), "ids=" ++ showIntList (Helpers.effectMembers.map (·.value)))
@@ -55,7 +56,8 @@ def step (_ : Unit) (line : String) : Unit × String :=
         let b := fun (x : Bool) => if x then "1" else "0"
         ((), s!"reach={b (memN c.cls (reachSet vt))} kind={kindStr l.kind} gated={b l.support.isSome} supports={b (supportsOpt l.support vt.version)} exists={b (hasPath vt.paths l.path)}")
     | _, _, _ => ((), "bad-op")
-  | ["attr", v, cn, an, st] =>
+  | [op, v, cn, an, st] =>
+    if op != "attr" && op != "attrr" then ((), "bad-op") else
     match version? v, classNamed? cn, idOf? an with
     | some vt, some c, some a =>
       match c.links.find? (fun l => l.name == a) with
@@ -76,6 +78,7 @@ def step (_ : Unit) (line : String) : Unit × String :=
           let wn := match writeAttr state cur .none with | .ok _ => "ok" | .error _ => "unsupported"
           let (wv, held) := match writeAttr state cur sentinel with
             | .ok x => ("ok", x) | .error _ => ("unsupported", cur)
+          let held := if op == "attrr" then sentinel else held
           let (push, st') := match pushLink vt.paths vt.version l held [] with
             | .ok s => ((if s.isEmpty then "skipped" else "written"), s)
             | .error _ => ("error", [])
@@ -84,7 +87,8 @@ def step (_ : Unit) (line : String) : Unit × String :=
             | .ok (none, .available) => "none"
             | .ok (_, .disabled) => "unsupported"
             | .error _ => "error"
-          ((), s!"read={rd} wnone={wn} wval={wv} push={push} reread={rr}")
+          if op == "attrr" then ((), s!"read={rd} push={push} reread={rr}")
+          else ((), s!"read={rd} wnone={wn} wval={wv} push={push} reread={rr}")
     | _, _, _ => ((), "bad-op")
   | ["witness", v] =>
     match version? v with
